@@ -22,7 +22,7 @@ TECHNIQUE = "TLA+ contract + TLC model checking; TLC-generated scenarios run on 
 SPEC = os.path.join(VERIF, "spec", "tasking")
 
 
-def run_driver(exe, scenarios, threads, tag, timeout=240, perturb=0):
+def run_driver(exe, scenarios, threads, tag, timeout=120, perturb=0):
     d = os.path.join(WORK, "run", tag)
     os.makedirs(d, exist_ok=True)
     inp = os.path.join(d, "sc-%d.ndjson" % os.getpid())
@@ -73,7 +73,7 @@ def run_driver(exe, scenarios, threads, tag, timeout=240, perturb=0):
             rest = rest[1:]
         pending = rest
         bad = sum(1 for r in results.values() if r["events"] and r["events"][-1].get("ev") == "Abort" and ("hang" in r["events"][-1].get("why", "") or "driver died" in r["events"][-1].get("why", "")))
-        if bad >= 4 and pending:
+        if bad >= 3 and pending:
             # enough evidence that loops hang / crash on this tree; the remaining scenarios are not run (neither accepted nor rejected)
             for i in pending:
                 results[i] = {"id": i, "skipped": True, "events": []}
@@ -148,7 +148,11 @@ def run(chk, replay=None):
         plans = [(x.split(":")[0], int(x.split(":")[1]), int((x.split(":") + ["0"])[2])) for x in os.environ["VERIF_C01_PLANS"].split(",")]
     total_events = 0
     cut_recs = []
+    cut_short = {}
     for backend, threads, perturb in plans:
+        if cut_short.get(backend, 0) >= 2:
+            chk.note("%s T=%d: plan not run (two earlier plans on this back end were cut short by hanging / crashing loops)" % (backend, threads))
+            continue
         exe = build.build("drv_par_for", backend=backend)
         mine = [s for s in scen if not (s.get("prefill") and backend == "Debug")]
         # a body that throws ends the process on the OpenMP and Internal back ends (exception leaving a worker thread): the
@@ -162,7 +166,8 @@ def run(chk, replay=None):
                 raise InfraError("no result for scenario %d on %s" % (i, backend))
         nskip = sum(1 for i in range(len(mine)) if res[i].get("skipped"))
         if nskip:
-            chk.note("%s T=%d: %d scenarios were not executed after 4 loops hung or crashed the driver" % (backend, threads, nskip))
+            cut_short[backend] = cut_short.get(backend, 0) + 1
+            chk.note("%s T=%d: %d scenarios were not executed after 3 loops hung or crashed the driver" % (backend, threads, nskip))
             mine = [s for i, s in enumerate(mine) if not res[i].get("skipped")]
             res = dict(enumerate(r for _, r in sorted(res.items()) if not r.get("skipped")))
         for i, s in enumerate(mine):
